@@ -44,8 +44,14 @@ def check(prog: Program, run: Run) -> None:
     run.rule("C09.R4", "the inheritance helpers never write to an object reached through a "
              "parent reference", floor=1)
     run.rule("C09.G1", "literal attribute names used by the helpers exist", floor=2)
+    run.rule("C09.R5", "the NOT-INHERITED lists of a parent reference are parsed from the elements "
+             "they are written to: each list from its own element path (shared with C11.R7)",
+             floor=5)
     _merge(prog, run)
     _wiring(prog, run)
+    from ..jinjamodel import TemplateModel
+    from . import tagpaths
+    tagpaths.check(prog, TemplateModel(prog.repo), run, "C09.R5", only=lambda c: c == "ParentRef")
     _priorities(prog, run)
     _parents_untouched(prog, run)
     common.g1_literal_attrs(prog, run, "C09.G1", ["odxtools/diaglayers/hierarchyelement.py",
